@@ -34,7 +34,7 @@ class SymUniformRng:
 
 class C02(Check):
     pid = "C02"
-    required_labels = ["log_w", "log_evidence", "ess", "ess_range", "evidence_error", "rejection", "fp/log_evidence_finite", "fp/log_evidence_error_not_nan"]
+    required_labels = ["log_w", "log_evidence", "ess", "ess_range", "evidence_error", "rejection", "fp/log_evidence_finite", "fp/log_evidence_error_not_nan", "history/log_evidence", "history/shift_evidence", "selection/ess"]
     stubs = [
         "numpy.random.Generator.uniform -> fresh symbolic draws in (0,1)",
         "float constants bit-identical to math.log(k), k<=64, are read as ln k (exact)",
@@ -57,6 +57,15 @@ class C02(Check):
             out.append({"name": f"rejection-N{n}", "kind": "rejection", "N": n})
         for n in ([2, 3] if tier == "quick" else [2, 3, 4]):
             out.append({"name": f"hyper-N{n}", "kind": "hyper", "N": n})
+        # histories on ONE object: inspect, change the log-densities, recompute; and a
+        # constructor that is handed an evidence together with all three log-densities
+        for n in ([2] if tier == "quick" else [2, 3]):
+            for mode in ("reassign", "ctor_evidence", "deferred"):
+                out.append({"name": f"history-{mode}-N{n}", "kind": "history", "mode": mode, "N": n})
+        # the ESS / weights of a selection are those of the selected rows (index arrays of
+        # every length, repeats included; every index vector is a path)
+        for n, m in ([(2, 2), (3, 3)] if tier == "quick" else [(2, 2), (3, 3), (3, 2), (3, 4)]):
+            out.append({"name": f"selection-N{n}-M{m}", "kind": "selection", "N": n, "M": m, "timeout_ms": 60000})
         for bits in (64, 32):
             for part in ("finite", "minus_inf"):
                 out.append({"name": f"fp{bits}-stability-{part}-N2", "kind": "fp", "part": part, "N": 2, "bits": bits, "timeout_ms": 120000})
@@ -240,8 +249,72 @@ class C02(Check):
             ctx.prove(fin(sx.term(s2.log_evidence)), "fp/minus_inf_entries_log_evidence_finite")
             ctx.prove(z3.Not(z3.fpIsNaN(sx.term(s2.effective_sample_size))), "fp/minus_inf_entries_ess_not_nan")
 
+        def spec(ctx, s, w, label, n=None):
+            """The functional clauses of C02 on object `s` against log-weights `w`."""
+            n = len(w)
+            W = [sx.term(sx.exp(sx.asarray(wi))) for wi in w]
+            sW = z3.Sum(W)
+            sW2 = z3.Sum([a * a for a in W])
+            lw = sx.terms(s.log_w)
+            if not ctx.prove(len(lw) == n, label + "/log_w", detail={"len": len(lw)}):
+                return
+            for i in range(n):
+                ctx.prove(lw[i] == w[i], label + "/log_w", detail={"row": i})
+            wt = sx.terms(s.weights)
+            for i in range(n):
+                ctx.prove(wt[i] == W[i], label + "/weights", detail={"row": i})
+            ess = sx.term(s.effective_sample_size)
+            ctx.prove(ess * sW2 == sW * sW, label + "/ess")
+            ctx.prove(sx.term(s.efficiency) * n == ess, label + "/efficiency")
+            return W, sW
+
+        def history(ctx):
+            x, ll, lp, lq = build()
+            mode = cfg["mode"]
+            c = sx.sym("cshift")
+            if mode == "reassign":
+                s = Samples(x=x, log_likelihood=ll, log_prior=lp, log_q=lq, xp=sx)
+                z0 = sx.term(s.log_evidence)
+                _ = s.effective_sample_size
+                s.log_likelihood = s.log_likelihood + c
+                s.compute_weights()
+                w = [sx.term(ll[i] + c + lp[i] - lq[i]) for i in range(N)]
+                ctx.prove(sx.term(s.log_evidence) == z0 + sx.term(c), "history/shift_evidence")
+            elif mode == "ctor_evidence":
+                s = Samples(x=x, log_likelihood=ll, log_prior=lp, log_q=lq, xp=sx, log_evidence=sx.sym("givenZ"), log_evidence_error=sx.sym("givenE"))
+                w = [sx.term(ll[i] + lp[i] - lq[i]) for i in range(N)]
+            else:  # what ImportanceSampler / convert_to_samples do: fill in, then compute
+                s = Samples(x=x, log_q=lq, xp=sx)
+                s.log_prior = lp
+                s.log_likelihood = ll
+                s.compute_weights()
+                w = [sx.term(ll[i] + lp[i] - lq[i]) for i in range(N)]
+            r = spec(ctx, s, w, "history")
+            if r is None:
+                return
+            W, sW = r
+            ctx.prove(sx.term(sx.exp(s.log_evidence)) * N == sW, "history/log_evidence")
+            lee = sx.term(s.log_evidence_error)
+            Zs = sW / N
+            sq = z3.Sum([(a - Zs) * (a - Zs) for a in W])
+            if core.is_uf_app(lee, "SQRT"):
+                ctx.prove(lee.arg(0) * (N * (N - 1)) * Zs * Zs == sq, "history/log_evidence_error")
+            else:
+                ctx.prove(z3.And(lee >= 0, lee * lee * (N * (N - 1)) * Zs * Zs == sq), "history/log_evidence_error")
+
+        def selection(ctx):
+            x, ll, lp, lq = build()
+            M = cfg["M"]
+            s = Samples(x=x, log_likelihood=ll, log_prior=lp, log_q=lq, xp=sx)
+            _ = s.effective_sample_size
+            idx = [int(sx.sym_int(f"i{k}", range(N))) for k in range(M)]
+            out = s[np.asarray(idx)]
+            w = [sx.term(ll[i] + lp[i] - lq[i]) for i in idx]
+            spec(ctx, out, w, "selection")
+            ctx.notes["selection_idx"] = idx
+
         self._fp_minus_inf = _fp_minus_inf
-        return {"weights": weights, "rejection": rejection, "hyper": hyper, "fp": fp}[kind]
+        return {"weights": weights, "rejection": rejection, "hyper": hyper, "fp": fp, "history": history, "selection": selection}[kind]
 
     # ------------------------------------------------------------------
     def to_cex(self, fl):
@@ -263,8 +336,13 @@ class C02(Check):
             cex["lm"] = [raw.get(f"lm_{i}") for i in range(N)]
         if fl["cfg"]["kind"] == "rejection":
             cex["u"] = env_array(env, "u1", (N,), default=0.5)
-        if fl["cfg"]["kind"] == "hyper":
-            cex["c"] = env.get("cshift") or 0.0
+        if fl["cfg"]["kind"] in ("hyper", "history"):
+            cex["c"] = env.get("cshift") or 1.5
+        if fl["cfg"]["kind"] == "history":
+            cex["mode"] = fl["cfg"]["mode"]
+        if fl["cfg"]["kind"] == "selection":
+            M = fl["cfg"]["M"]
+            cex["idx"] = [int(round(float(env.get(f"i{k}") or 0))) for k in range(M)]
         return cex
 
     def replay(self, cex):
@@ -311,6 +389,48 @@ def replay_c02(cex):
         if not (math.isfinite(a) and math.isfinite(b)) or abs(a - b) > tol * max(1.0, abs(a), abs(b)):
             bad.append(f"{what}: got {a!r}, expected {b!r}")
 
+    if cex.get("kind") in ("history", "selection"):
+        with np.errstate(all="ignore"):
+            if cex["kind"] == "selection":
+                idx = np.asarray(cex["idx"], int) % N
+                parent = Samples(x=x, log_likelihood=ll, log_prior=lp, log_q=lq)
+                _ = parent.effective_sample_size
+                s = parent[idx]
+                w = (ll + lp - lq)[idx]
+                what = f"selection {idx.tolist()}"
+            elif cex["mode"] == "reassign":
+                c = float(cex.get("c", 1.5))
+                s = Samples(x=x, log_likelihood=ll, log_prior=lp, log_q=lq)
+                z0 = float(s.log_evidence)
+                s.log_likelihood = s.log_likelihood + c
+                s.compute_weights()
+                w = ll + c + lp - lq
+                what = "after changing log_likelihood and compute_weights()"
+                close(s.log_evidence, z0 + c, f"log_evidence {what} (shift by c={c})")
+            elif cex["mode"] == "ctor_evidence":
+                s = Samples(x=x, log_likelihood=ll, log_prior=lp, log_q=lq, log_evidence=3.25, log_evidence_error=0.5)
+                w = ll + lp - lq
+                what = "constructed with an evidence and all three log-densities"
+            else:
+                s = Samples(x=x, log_q=lq)
+                s.log_prior = lp
+                s.log_likelihood = ll
+                s.compute_weights()
+                w = ll + lp - lq
+                what = "filled in after construction, then compute_weights()"
+            n = len(w)
+            if len(s.log_w) != n:
+                return True, f"{what}: log_w has {len(s.log_w)} entries for {n} rows"
+            for i in range(n):
+                close(s.log_w[i], w[i], f"{what}: log_w[{i}]")
+            ess = math.exp(2 * sp_lse(w) - sp_lse(2 * w))
+            close(s.effective_sample_size, ess, f"{what}: effective_sample_size")
+            close(s.efficiency, ess / n, f"{what}: efficiency")
+            if cex["kind"] == "history":
+                close(s.log_evidence, sp_lse(w) - math.log(n), f"{what}: log_evidence")
+                r = np.exp(w - (sp_lse(w) - math.log(n)))
+                close(s.log_evidence_error, math.sqrt(float(np.sum((r - 1.0) ** 2)) / (n * (n - 1))), f"{what}: log_evidence_error")
+        return (len(bad) > 0, "; ".join(bad[:4]) if bad else "all C02 clauses hold on this input")
     with np.errstate(all="ignore"):
         s = Samples(x=x, log_likelihood=ll, log_prior=lp, log_q=lq)
         w = ll + lp - lq
